@@ -56,6 +56,7 @@ def replays(out):
 def fs_cfg(path, procs, ops, maxstarts, crash, faults, invariants, properties=(), fair=False):
     txt = "CONSTANTS\n  Procs = {%s}\n" % ", ".join("p%d" % (i + 1) for i in range(procs))
     txt += '  Keys = {"k1", "k2"}\n  Datas = {"d1", "d2"}\n  OpSet <- %s\n' % ops
+    txt += "  IsEmptyData <- MCIsEmpty\n"
     txt += "  MaxStarts = %d\n  AllowCrash = %s\n  MaxFaults = %d\n  NoFile = NoFile\n" % (
         maxstarts, "TRUE" if crash else "FALSE", faults)
     txt += "SPECIFICATION %s\n" % ("FairSpec" if fair else "Spec")
